@@ -104,6 +104,9 @@ impl SystemCommandStorage
         self.callback = Some(callback);
     }
 
+    #[cfg(ukoehb_bevy_cobweb_verif)]
+    pub(crate) fn verif_has_callback(&self) -> bool { self.callback.is_some() }
+
     pub(crate) fn take(&mut self) -> Option<SystemCommandCallback>
     {
         self.callback.take()
